@@ -384,3 +384,30 @@ Fixpoint expo_run (maxsize : N) (hist prevc : list epoint) (seen : list (skey * 
   end.
 Definition expo_ok (maxsize : N) (meas : list (list (skey * Z * N))) (obs : list (list epoint * list epoint)) : bool :=
   expo_run maxsize [] [] [] meas obs.
+
+(** Prop readings of the exponential clauses (what [expo_ok] decides) *)
+Definition CumVsDeltas (buckets : bool) (c : epoint) (ds : list epoint) : Prop :=
+  ds <> [] /\ e_count c = esum e_count ds /\ e_sum c = esum e_sum ds /\ e_zero c = esum e_zero ds /\
+  (buckets = true ->
+     (forall d, In d ds -> e_scale c <= e_scale d) /\
+     forall i, bshift_count 0 i (e_pos c) = esum (fun d => bshift_count (e_scale d - e_scale c) i (e_pos d)) ds /\
+               bshift_count 0 i (e_neg c) = esum (fun d => bshift_count (e_scale d - e_scale c) i (e_neg d)) ds).
+
+Definition for_key (k : skey) (ps : list epoint) : list epoint := filter (fun p => (e_key p =? k)%N) ps.
+
+Fixpoint ExpoRun (maxsize : N) (hist prevc : list epoint) (seen : list (skey * Z * N))
+         (meas : list (list (skey * Z * N))) (obs : list (list epoint * list epoint)) : Prop :=
+  match meas, obs with
+  | [], [] => True
+  | m :: mr, (dp, cp) :: or_ =>
+      let hist' := hist ++ dp in
+      let seen' := seen ++ m in
+      (forall p, In p dp -> fits maxsize (key_flags (e_key p) m) = true -> e_count p = e_zero p + bsum (e_pos p) + bsum (e_neg p)) /\
+      (forall p, In p cp -> fits maxsize (key_flags (e_key p) seen') = true -> e_count p = e_zero p + bsum (e_pos p) + bsum (e_neg p)) /\
+      (forall p, In p dp -> esum e_count (for_key (e_key p) dp) = key_count (e_key p) m) /\
+      (forall c, In c cp -> CumVsDeltas (fits maxsize (key_flags (e_key c) seen')) c (for_key (e_key c) hist')) /\
+      (forall d, In d hist' -> exists c, In c cp /\ e_key c = e_key d) /\
+      (forall c pc, In c cp -> In pc prevc -> e_key pc = e_key c -> e_scale c <= e_scale pc) /\
+      ExpoRun maxsize hist' cp seen' mr or_
+  | _, _ => False
+  end.
